@@ -244,7 +244,10 @@ def corr_pass(chk, mode, lines, label, known_matcher=None, nontrivial=None, mode
     oracle_filter(oracle_text) -> None if this property's part of the oracle is ok, else the relevant failure text.
     known_matcher(req, impl_reply, oracle_text, hyps_text) -> description string of the matching open finding or None.
     """
-    if engine == "two-stage":
+    if callable(engine):
+        impl = engine(chk, lines)
+        rc, err = 0, ""
+    elif engine == "two-stage":
         impl, info = two_stage(chk, lines)
         rc, err = 0, str(info)
     else:
@@ -280,7 +283,9 @@ def corr_pass(chk, mode, lines, label, known_matcher=None, nontrivial=None, mode
                 orc_rel = (orc_rel if orc_rel != "(oracle ok)" else "") + " " + eo
         if ofail:
             stats["oracle_fail"] += 1
-        if (view(ir) != view(mr.strip())) if view else (ir != mr.strip()):
+        if mr.strip() == "untied":
+            stats["untied"] = stats.get("untied", 0) + 1
+        elif (view(ir) != view(mr.strip())) if view else (ir != mr.strip()):
             stats["mismatch"] += 1
             if ofail:
                 found_input = True
